@@ -29,6 +29,9 @@ KINDS = {
     "P2": ["q", "f", "q"],
     "M2": ["q", "q", "f", "f"],
     "U3": ["q", "q", "q"],
+    "D2": ["q", "q", "f"],  # diagonal, asymmetric in its qubits (controlled-phase style)
+    "D3": ["q", "q", "q"],  # diagonal 3-qubit gate with generic phases
+    "CX": ["q", "q"],  # permutation matrix (control = first argument)
     "NoU": ["q"],
 }
 
@@ -54,6 +57,17 @@ def unitary_fn(seed, name, kinds):
     if name == "X":
         m = np.array([[0, 1], [1, 0]], dtype=complex)
         return lambda: m
+    if name == "CX":
+        # bit 0 = first argument = control, bit 1 = target
+        cx = np.array([[1, 0, 0, 0], [0, 0, 0, 1], [0, 0, 1, 0], [0, 1, 0, 0]], dtype=complex)
+        return lambda: cx
+    if name == "D3":
+        ph = np.random.default_rng(_name_seed(seed, name)).uniform(-3, 3, size=8)
+        d3 = np.diag(np.exp(-1j * ph))
+        return lambda: d3
+    if name == "D2":
+        lam = np.random.default_rng(_name_seed(seed, name)).uniform(-2, 2, size=4)
+        return lambda t: np.diag(np.exp(-1j * float(t) * lam))
     v = haar(rng, dim)
     if ncl == 0:
         return lambda: v
